@@ -140,7 +140,8 @@ def history(ctx, lw, rng, kind):
         first = None
     observed_once = False
     for i in range(n_steps):
-        reconfig = ["edit", "param", "input", "circuit_same", "circuit_heralds", "herald_in_place", "rejected"]
+        reconfig = ["edit", "param", "input", "circuit_same", "circuit_heralds", "herald_in_place", "rejected",
+                    "failed_read"]
         if kind == "Sampler":
             reconfig += ["source_mut", "source_new", "backend", "detector"]
             obs = ["read", "sample", "n_inputs", "n_outputs"]
@@ -279,6 +280,33 @@ def history(ctx, lw, rng, kind):
             elif step == "counting":
                 obj.photon_counting = not obj.photon_counting
                 changed_since_obs = "detector_mode_toggled"
+            elif step == "failed_read":
+                # something is reconfigured, then a read *fails* because a Parameter holds a value its component cannot
+                # take; the Parameter is put back to exactly its earlier value and the next read must be that of the
+                # current configuration (a half-done recalculation may leave no trace)
+                cand = [p for p in params if isinstance(p.get(), (int, float)) and not p.has_bounds()]
+                if cand:
+                    p = cand[int(rng.integers(len(cand)))]
+                    v0 = p.get()
+                    k = obj.circuit.input_modes
+                    what_changed = str(rng.choice(["input", "source", "nothing"])) if kind == "Sampler" else \
+                        str(rng.choice(["input", "counting", "nothing"]))
+                    if what_changed == "input":
+                        obj.input_state = State(random_state(rng, k, int(rng.integers(1, 3))))
+                    elif what_changed == "source":
+                        obj.source.brightness = float(rng.uniform(0.5, 0.99))
+                    elif what_changed == "counting":
+                        obj.photon_counting = not obj.photon_counting
+                    p.set(float(rng.choice([1.5, -0.3, 7.0])) if 0 <= v0 <= 1 else "not a phase")
+                    try:
+                        _ = obj.probability_distribution
+                        trace[-1].append("read with the invalid value did not fail")
+                    except Exception as e_:  # noqa: BLE001
+                        trace[-1].append("read failed: " + type(e_).__name__)
+                        ctx.bucket("read_failed_then_parameter_restored")
+                    p.set(v0)
+                    trace[-1].append(what_changed)
+                    changed_since_obs = "read_after_failed_read"
             elif step == "rejected":
                 # a reconfiguration that must be (or happens to be) refused: afterwards the object must still behave like a
                 # fresh one with the settings it *reports* - a refused request may leave no residue
